@@ -151,14 +151,17 @@ FaultPlans == { <<a, b, c>> : a \in FaultCodes, b \in FaultCodes, c \in FaultCod
 CancelPoints == -1..6
 
 C07_Cfgs == { [BaseCfg EXCEPT !.hmac = "withoutuv", !.mc = TRUE] }
-C07_Stores == { << <<Cred("c1", "r1", "u1", Ctr(0, 7), "both"), Cred("c2", "r1", "u2", NoCtr, "none")>> >> }
+C07_Stores == { << <<Cred("c1", "r1", "u1", Ctr(0, 7), "both"), Cred("c2", "r1", "u2", NoCtr, "none")>> >>,
+                \* two counter-bearing credentials without PRF secrets: an assertion that asks for a PRF evaluation fails
+                \* after the counter of the ONE selected credential was written
+                << <<Cred("c1", "r1", "u1", Ctr(0, 7), "none"), Cred("c2", "r1", "u2", Ctr(0, 3), "none")>> >> }
 PrfOne == [given |-> TRUE, eval |-> "one", byCred |-> <<>>, byCredGiven |-> FALSE]
 C07_McReqs == { [BaseReq EXCEPT !.exclude = x, !.excludeGiven = (x # <<>>), !.rk = rk, !.prf = p, !.user = "u3"] :
                   x \in {<<>>, <<"c1">>, <<"x1">>}, rk \in BOOLEAN, p \in {NoPrfReq, PrfOne} }
               \* a registration for an account that already has a (discoverable) credential at the RP
               \cup { [BaseReq EXCEPT !.rk = rk, !.user = "u1"] : rk \in BOOLEAN }
 C07_GaReqs == { [BaseReq EXCEPT !.allow = a, !.allowGiven = (a # <<>>), !.prf = p] :
-                  a \in {<<>>, <<"c1">>, <<"c2">>}, p \in {NoPrfReq, PrfOne} }
+                  a \in {<<>>, <<"c1">>, <<"c2">>, <<"c1", "c2">>, <<"c2", "x1", "c1">>}, p \in {NoPrfReq, PrfOne} }
 C07_Cers ==
     { << Cer("ctap2", "mc", r, [BaseEnv EXCEPT !.faults = f, !.cancelAt = k]) >> :
         r \in C07_McReqs, f \in FaultPlans, k \in CancelPoints }
@@ -171,7 +174,7 @@ C07_Cers ==
 
 RpChoice == {"r1", "r2", "absent"}
 C05_Contents ==
-    { SelectSeq(<<Cred("c1", a, "u1", NoCtr, "none"), Cred("c2", b, "u1", Ctr(0, 1), "none"),
+    { SelectSeq(<<Cred("c1", a, "u1", NoCtr, "none"), Cred("c2", b, "none", Ctr(0, 1), "none"),
                   Cred("c3", c, "u2", NoCtr, "none")>>, LAMBDA x : x.rp # "absent") :
         a \in RpChoice, b \in RpChoice, c \in RpChoice }
 C05_Stores == { <<s>> : s \in C05_Contents }
